@@ -159,6 +159,21 @@ func runRowCase(c *Case) {
 			if nontrivial {
 				rep.DistinctNontrivial++
 			}
+			if r.accepted && !distinct && !r.violated {
+				// a repeated key was resolved to one value: the identity must be the one of the resolved tag set
+				canon := *pm
+				canon.Tags = r.st.Tags
+				canon.TS = TS{"abs", absTS}
+				ctx2 := ctx
+				ctx2.Enriched = nil
+				rows, _ := readBatch(parseBatch(&ctx2, []Metric{canon}, []int64{absTS}))
+				rep.Count("resolved_tag_set_resends", 1)
+				if len(rows) == 1 && rows[0].TagsHash != r.st.TagsHash {
+					violate(c, "identity-of-resolved-tags", scen, siteOf(enc),
+						fmt.Sprintf("tags %v(+%v) were stored as %v with tagsHash %x, but the same tag set sent without the repeated key has tagsHash %x",
+							pm.Tags, ctx.Enriched, r.st.Tags, r.st.TagsHash, rows[0].TagsHash))
+				}
+			}
 			if first == nil {
 				first = &r
 				firstOrder = fmt.Sprint(pm.Tags)
@@ -212,28 +227,6 @@ func runRowCase(c *Case) {
 		}
 		rep.Count("cross_format_comparisons", 1)
 	}
-}
-
-// rowClass is the coarse, stable class of a row case (used in scenario names).
-func rowClass(m *Metric, ctx *Ctx) string {
-	var parts []string
-	if !distinctKeys(m.Tags) {
-		parts = append(parts, "dup-keys")
-	}
-	if len(ctx.Enriched) > 0 {
-		parts = append(parts, "enriched")
-	}
-	if m.NS != "" {
-		parts = append(parts, "row-ns")
-	}
-	if ctx.ReqNS != "" {
-		parts = append(parts, "req-ns")
-	}
-	if m.Hist != nil {
-		parts = append(parts, "hist")
-	}
-	parts = append(parts, "limits-"+ctx.Limits.Label)
-	return strings.Join(parts, ",")
 }
 
 // ---------------------------------------------------------------------------------------------------
